@@ -19,6 +19,10 @@ theorem strict_table :
 theorem compat_table :
     Generated.C14.compat = Spec.HtmlAllow.expected .compat Generated.C14.univ := by decide +kernel
 
+/-- The lists the model runs with in T2 are, as data, the spec's lists: every theorem stated at
+`Spec.HtmlAllow.lists` is a theorem about the model instance that is compared with the code. -/
+theorem impl_eq_spec : implLists = Spec.HtmlAllow.lists := by decide +kernel
+
 theorem within : Spec.HtmlAllow.withinUniverse Generated.C14.univ = true := by decide +kernel
 
 end Ruma.Lemmas.HtmlTables
